@@ -58,6 +58,8 @@ func DetachClearSign(w io.Writer, signer *openpgp.Entity, message io.Reader, con
 		if err == nil {
 			_, err = w.Write(tail)
 		}
+		// stop the signer if it is still writing, otherwise it blocks forever
+		_ = readPipe.CloseWithError(err)
 		done <- err
 	}()
 	err := ClearSign(writePipe, signer, message, config)
@@ -98,7 +100,10 @@ func MergeClearSign(w io.Writer, sig []byte, message io.Reader) error {
 	readPipe, writePipe := io.Pipe()
 	done := make(chan error)
 	go func() {
-		done <- headClearSign(readPipe, out)
+		err := headClearSign(readPipe, out)
+		// stop the signer if it is still writing, otherwise it blocks forever
+		_ = readPipe.CloseWithError(err)
+		done <- err
 	}()
 
 	err = ClearSign(writePipe, signer, message, config)
